@@ -307,7 +307,16 @@ def run(ctx):
                                   text, sorted(cnd.lit_str(l) for l in lits)), where=fc.where(ha, line))
         # the gate function(s)
         for fn in ("register_announce_message", "reregister_announce_message"):
-            g = prog.one(name=fn, self_name="Bmca", crate="statime-lib")
+            try:
+                g = prog.one(name=fn, self_name="Bmca", crate="statime-lib")
+            except AnchorMissing:
+                if fn == "reregister_announce_message":
+                    # the two gate functions may have been merged into one that takes the age: the first iteration
+                    # has checked that one
+                    g0 = prog.one(name="register_announce_message", self_name="Bmca", crate="statime-lib")
+                    rep.ok("NI-4", g0.key, "re-registration goes through the same gated function", where=g0.loc())
+                    continue
+                raise
             cg_ = cnd.conds(prog, g)
             sites = E.sites(g)
             if not sites:
